@@ -263,6 +263,11 @@ def run(ctx, ck):
     from ._endidx import check_end_index
     ck.rule('R-COUNT.end-index', 'predicted index of the end pulses == number of pulses created before them (all end states)')
     ncases = check_end_index(ctx, ck)
+    # a junction pulse sits on the joint shared by its two segments: its outer half lies on the segment of the
+    # neighbour that touches the junction (rule shared with C02 / C06)
+    ck.rule('R-SIB.junction-geometry', 'the outer half of a junction pulse is the neighbour segment touching the junction')
+    from ._creation import check_neighbour_segment
+    check_neighbour_segment(ctx, ck, rule='R-SIB.junction-geometry')
     ck.floor('end-state cases', ncases, 30)
     ck.undecided += ['k-1 pulses for every junction of k ends (depends on runtime connection graph)']
 
